@@ -26,6 +26,15 @@ def h_agree(L, variant):
     f = Formatter()
     I.trait_call('Display', 'fmt', parse_type('PackageType'), [Ref([v], 0), Ref([f], 0)])
     forms['Display'] = list(f.out)
+    # Display under the flags a format string can set (`{:#}`, `{:+}`, `{:.3}`): none of them may change the name
+    # (a width is left out: padding is the caller's request, and the implementation writes the name without consulting it)
+    for label, kw in (('{:#}', {'alternate': True}), ('{:+}', {'sign_plus': True}), ('{:.9}', {'precision': 9}), ('{:09}', {'zero_pad': True, 'width': 9})):
+        f = Formatter(**kw)
+        I.trait_call('Display', 'fmt', parse_type('PackageType'), [Ref([v], 0), Ref([f], 0)])
+        if label != '{:09}':
+            forms['Display ' + label] = list(f.out)
+        elif bytes(x for x in f.out if isinstance(x, int)).strip(b' 0') != bytes(want):
+            forms['Display ' + label] = list(f.out)
     forms['AsRef<str>'] = list(sbytes(I.trait_call('AsRef', 'as_ref', parse_type('PackageType'), [Ref([v], 0)], (parse_type('str'),))))
     forms['From<PackageType> for &str'] = list(sbytes(I.trait_call('From', 'from', parse_type('&str'), [v], (parse_type('PackageType'),))))
     forms['PurlShape::package_type'] = list(sbytes(I.trait_call('PurlShape', 'package_type', parse_type('PackageType'), [Ref([v], 0)])))
@@ -211,7 +220,7 @@ def confirm(v, resp):
         return None
     if 'ok' in resp:
         o = resp['ok']
-        forms = {hx(o[k]) for k in ('name', 'display', 'as_ref', 'into', 'package_type')}
+        forms = {hx(o[k]) for k in ('name', 'display', 'as_ref', 'into', 'package_type', 'display_alt', 'display_plus', 'display_prec') if k in o}
         if o.get('serde') is not None:
             forms.add(hx(o['serde']))
         if len(forms) != 1:
